@@ -171,6 +171,16 @@ def check_programs(ctx, pairs, res, report=True):
         # the repaired (base) program must be valid for the specification as well
         if k == "none" and not m["valid"]:
             raise RuntimeError(f"generator: base program {meta['tag']} is invalid for Validate.tla: {m}")
+        if job["id"] % 5 == 0 and not job["prog"]["explicit"] and len(job["prog"]["nodes"]) >= 2 and o["stage"] != "node-ctor" and o["where"] == "":
+            # the same node list assembled in two steps (prefix graph, then add_nodes): same outcome as at once
+            og = G.observe(job["prog"], grow=True)
+            if og is not None:
+                ctx.count()
+                ctx.bump("construction_histories")
+                if og["accepted"] != o["accepted"] or (not og["accepted"] and og["how"] != o["how"]):
+                    ctx.violation("outcome-depends-on-construction-history",
+                                  {"kind": "program", "job": job, "meta": meta, "at_once": o, "prefix_then_add_nodes": og},
+                                  f"[{meta['tag']} flaw={meta['flaw']}] Graph(all nodes): {o['how']}; Graph(prefix).add_nodes(rest): {og['how']}")
         c = classify(job, meta, m, o)
         if c is None:
             continue
